@@ -86,7 +86,8 @@ Proof.
     injection Hex as <- <- <-;
     cbn [owes in_rel insafe] in Hlk; cbn [owes in_rel];
     try match goal with |- context [first_err] => unfold first_err; destruct (a_e (set_code a k)) end;
-    cbn [a_code set_code set_e set_chk set_res set_exit i_lk i_setq i_setlk i_setdeadline i_fire i_closeinput];
+    cbn [a_code set_code set_e set_chk set_res set_exit i_lk i_setq i_setlk i_closeinput];
+    rewrite ?(proj1 (proj2 (i_setdeadline_keeps _ _ _))), ?(proj1 (proj2 (i_fire_keeps _ _)));
     try (split; [exact Hlk|split; reflexivity]);
     try (split; [reflexivity|split; reflexivity]).
   all: try match goal with
@@ -125,8 +126,7 @@ Definition LK (s : state) : Prop :=
 
 Lemma lk_programs : forall k, insafe false (prog_of k) = true /\ owes (prog_of k) = false.
 Proof.
-  destruct k as [|n|n|n|n|n|past| |evs| | |b]; try (split; reflexivity).
-  - destruct past; split; reflexivity.
+  destruct k as [|n|n|n|n|n|m|j|evs| | |b]; try (split; reflexivity).
   - cbn [prog_of]. induction evs as [|e evs IH]; [split; reflexivity|exact IH].
 Qed.
 
@@ -153,13 +153,13 @@ Proof.
   split; [exact Hact|].
   destruct o;
     try (destruct Hrel as [Ho Hl]; rewrite Hl;
-         (split; [intro H; destruct (Hex1 H) as [j Hj]; exists j;
-                  destruct (Nat.eq_dec j i) as [->|Hn]; [rewrite upd_same, Ho; exact Hj|rewrite Hoth by exact Hn; exact Hj]|]);
-         (split; [intros j Hj; destruct (Nat.eq_dec j i) as [->|Hn];
-                  [rewrite upd_same, Ho in Hj; exact (Hall i Hj)|rewrite Hoth in Hj by exact Hn; exact (Hall j Hj)]|]);
+         (split; [intro H; destruct (Hex1 H) as [jx Hjx]; exists jx;
+                  destruct (Nat.eq_dec jx i) as [->|Hn]; [rewrite upd_same, Ho; exact Hjx|rewrite Hoth by exact Hn; exact Hjx]|]);
+         (split; [intros jx Hjx; destruct (Nat.eq_dec jx i) as [->|Hn];
+                  [rewrite upd_same, Ho in Hjx; exact (Hall i Hjx)|rewrite Hoth in Hjx by exact Hn; exact (Hall jx Hjx)]|]);
          intros j1 j2 H1 H2;
-         assert (G : forall j, owes (a_code (upd (s_a s) i a' j)) = true -> owes (a_code (s_a s j)) = true)
-           by (intros j Hj; destruct (Nat.eq_dec j i) as [->|Hn]; [rewrite upd_same, Ho in Hj; exact Hj|rewrite Hoth in Hj by exact Hn; exact Hj]);
+         assert (G : forall jx, owes (a_code (upd (s_a s) i a' jx)) = true -> owes (a_code (s_a s jx)) = true)
+           by (intros jx Hjx; destruct (Nat.eq_dec jx i) as [->|Hn]; [rewrite upd_same, Ho in Hjx; exact Hjx|rewrite Hoth in Hjx by exact Hn; exact Hjx]);
          exact (Huniq j1 j2 (G j1 H1) (G j2 H2))).
   - (* OAcqIn: nobody held it; now i does *)
     destruct Hrel as (Hb & Haft & Hl0 & Hl1).
@@ -215,8 +215,7 @@ Definition NS (s : state) : Prop :=
 
 Lemma quiet_programs : forall k, role_of k <> RServe -> quiet_in (prog_of k) = true.
 Proof.
-  destruct k as [|n|n|n|n|n|past| |evs| | |b]; intro H; try reflexivity.
-  - destruct past; reflexivity.
+  destruct k as [|n|n|n|n|n|m|j|evs| | |b]; intro H; try reflexivity.
   - clear H. cbn [prog_of]. induction evs as [|e evs IH]; [reflexivity|exact IH].
   - exfalso. apply H. reflexivity.
 Qed.
